@@ -289,6 +289,14 @@ func (e *Exec) specLoc(m Clause, env *SpecEnv, add func(key, ref string)) {
 							for _, k := range e.fieldHeapKeys(sname, st.Field(i)) {
 								add(k, "")
 							}
+							if mt, isMap := st.Field(i).Type().Underlying().(*types.Map); isMap {
+								// any map stored in such a field may change
+								add("map#dom", "")
+								add("map#len", "")
+								for _, k := range e.mapValKeys(mt.Elem()) {
+									add(k.key, "")
+								}
+							}
 							return
 						}
 					}
@@ -570,7 +578,7 @@ func (e *Exec) guessHeapSort(k string) string {
 		return arrSort(SArrI)
 	case k == "elems:Bool":
 		return arrSort(SArrB)
-	case k == "elems:Int":
+	case k == "elems:Int", k == "elems:Ref":
 		return arrSort(SArrI)
 	case k == "ptr:Bool":
 		return SArrB
